@@ -65,7 +65,7 @@ RULE = ("PRNG histories over 2-3 backends, up to 6 connections, rooms {roomA, ro
         "control messages of all four recipient kinds (incl. unknown ids, forged sender fields), disconnect, resume "
         "(valid, public id, garbage, takeover), bye, housekeeping levels, virtual sessions add/remove/incall from internal "
         "and ordinary clients, room API calls (invite, disinvite, delete, message, incall, participants with "
-        "permissions, switchto), session limits; every second history starts with a scripted opening (virtual session across backends, duplicate virtual id, end of the internal client, repeated resume, user id from the room reply, shared Nextcloud session id, session limit, takeover) and three in four end with a concurrent step (`par`: racing registrations / first joins / bye vs. hello), plus a battery of race-only cases; non-trivial = at least five messages delivered to connections; "
+        "permissions, switchto), session limits; every second history starts with a scripted opening (virtual session across backends, duplicate virtual id, end of the internal client, repeated resume, user id from the room reply, shared Nextcloud session id, session limit, takeover, a federated session ending, a session ending while its own join waits for the backend — the openings are cycled through, so every run has several of each) and three in four end with a concurrent step (`par`: racing registrations / first joins / bye vs. hello), plus a battery of race-only cases; non-trivial = at least five messages delivered to connections; "
         "distinct = distinct op lists")
 
 TRUSTED = ["gorilla/websocket, net/http, encoding/json + easyjson (messages travel over real websockets)",
